@@ -3,6 +3,8 @@ import SphericalVerif.Props.IndexWalk
 import SphericalVerif.Lemmas.GenFill
 import SphericalVerif.Lemmas.GenH
 import Mathlib.Tactic.Ring
+import Mathlib.Tactic.Positivity
+import Mathlib.Tactic.Linarith
 set_option linter.unusedSectionVars false
 /-! The generated `_evaluate_Horner` (`Gen/HornerKern.lean`, translated from the Python text on every run) computes
     `Model.evaluateHornerK`: the two index-walking Horner loops of the text are the single coordinate loop of the model
@@ -240,18 +242,25 @@ theorem yindex0 (n : Int) (h : 0 ≤ n) : Yindex n 0 0 = n * (n + 1) := by
 
 variable [LawfulFMem φ α]
 
-/-- per degree: the generated text computes `Model.evalEll` -/
-theorem genEll_eq_evalEll (stM : μ) (farr : Array (Cx α)) (Hw : Int → α) (za : Cx α) (sw P ncols : Int) (n : Nat)
+/-- per degree: the generated text computes `Model.evalEll` (row `i` of the 2-d weight array holds the weights `farr`) -/
+theorem genEll_eq_evalEll (stM : μ) (farr : Array (Cx α)) (mw : Int → Cx α) (Hw : Int → α) (za : Cx α) (sw P ncols i : Int) (n : Nat)
+    (hrow : ∀ j : Int, 0 ≤ j → mw (i * ncols + j) = cget farr j.toNat)
     (hsn : (sw.natAbs : Int) ≤ n) (hsP : (sw.natAbs : Int) ≤ P)
     (hHw : ∀ a : Int, -(n : Int) ≤ a → a ≤ n → Hw (WignerHindex (n : Int) a (-sw) (some P)) = Hat (α := α) stM n a (-sw)) :
-    genEll (fun i => cget farr i.toNat) Hw za sw P 0 ncols 0 (n : Int) = evalEll (α := α) stM farr za sw n := by
-  have hmw : ∀ m : Int, -(n : Int) ≤ m → m ≤ n →
-      (fun i : Int => cget farr i.toNat) (0 * ncols + ((n : Int) * ((n : Int) + 1) + m)) = fAt farr n m := by
-    intro m _ _
-    simp only [Int.zero_mul, Int.zero_add]; rfl
+    genEll mw Hw za sw P 0 ncols i (n : Int) = evalEll (α := α) stM farr za sw n := by
+  have hnn : (0 : Int) ≤ (n : Int) * ((n : Int) + 1) := by positivity
+  have hmw : ∀ m : Int, -(n : Int) ≤ m → m ≤ n → mw (i * ncols + ((n : Int) * ((n : Int) + 1) + m)) = fAt farr n m := by
+    intro m h1 h2
+    rw [hrow _ (by nlinarith)]; rfl
   have hz : u_WignerHindex (n : Int) 0 ((sw.natAbs : Nat) : Int) P = WignerHindex (n : Int) 0 (-sw) (some P) := by
     have e : ((sw.natAbs : Nat) : Int) = (((-sw).natAbs : Nat) : Int) := by omega
     rw [e]; exact Lemmas.zero_hindex n (-sw) P (by omega) (by omega) (by omega)
+  have f0e : Cx.mulr (mw (i * ncols + (n : Int) * ((n : Int) + 1))) (Hw (u_WignerHindex (n : Int) 0 ((sw.natAbs : Nat) : Int) P))
+      = Cx.mulr (fAt farr n 0) (Hat (α := α) stM n 0 (-sw)) := by
+    rw [hz, hHw _ (by omega) (by omega)]
+    have := hmw 0 (by omega) (by omega)
+    simp only [Int.add_zero] at this
+    rw [this]
   unfold genEll
   simp only [yindex0 (n : Int) (by omega), Int.natAbs_natCast, Int.sub_zero]
   by_cases h0 : n = 0
@@ -260,21 +269,11 @@ theorem genEll_eq_evalEll (stM : μ) (farr : Array (Cx α)) (Hw : Int → α) (z
     rw [if_neg c]
     unfold evalEll
     simp only [if_true]
-    rw [hz, hHw _ (by omega) (by omega)]
-    have := hmw 0 (by omega) (by omega)
-    simp only [Int.add_zero] at this
-    rw [this]
+    exact f0e
   · have c : (n : Int) > 0 := by omega
     rw [if_pos c, evalEll_eq stM farr za sw n h0]
-    have key := loops_eq stM farr (fun i => cget farr i.toNat) Hw za sw P (0 * ncols) n (by omega) hsn hsP hmw hHw
+    have key := loops_eq stM farr mw Hw za sw P (i * ncols) n (by omega) hsn hsP hmw hHw
     simp only [] at key
-    have f0e : Cx.mulr ((fun i : Int => cget farr i.toNat) (0 * ncols + (n : Int) * ((n : Int) + 1))) (Hw (u_WignerHindex (n : Int) 0 ((sw.natAbs : Nat) : Int) P))
-        = Cx.mulr (fAt farr n 0) (Hat (α := α) stM n 0 (-sw)) := by
-      rw [hz, hHw _ (by omega) (by omega)]
-      have := hmw 0 (by omega) (by omega)
-      simp only [Int.add_zero] at this
-      dsimp only
-      rw [this]
     by_cases hup : -sw ≥ 0
     · have hd : decide (-sw ≥ 0) = true := by simpa using hup
       rw [hd] at key
@@ -285,8 +284,63 @@ theorem genEll_eq_evalEll (stM : μ) (farr : Array (Cx α)) (Hw : Int → α) (z
       simp only [hup, if_false]
       rw [f0e, key.1, key.2]
 
-/-- **`_evaluate_Horner` from the Python text**, one row of weights (stored from ℓ = 0, as `Modes` stores them), one rotor:
-    the output cell holds `Model.evaluateHornerK` of the coordinate model. -/
+/-- one row: afterwards its output cell holds `Model.evaluateHornerK` … -/
+theorem genRow_value (stM : μ) (farr : Array (Cx α)) (mw : Int → Cx α) (fv : Nat) (P : Int) (ellMax : Nat) (sw : Int) (Hw : Int → α)
+    (za zg : Cx α) (ncols : Int) (cpowi : Cx α → Int → Cx α) (i : Int) (st : φ) (hsP : (sw.natAbs : Int) ≤ P)
+    (hrow : ∀ j : Int, 0 ≤ j → mw (i * ncols + j) = cget farr j.toNat)
+    (hHw : ∀ (ell : Nat) (a : Int), sw.natAbs ≤ ell → ell ≤ ellMax → -(ell : Int) ≤ a → a ≤ ell →
+        Hw (WignerHindex (ell : Int) a (-sw) (some P)) = Hat (α := α) stM ell a (-sw)) :
+    frdC (α := α) (genRow mw fv Hw za zg sw P 0 (ellMax : Int) ncols cpowi i st) fv i
+      = evaluateHornerK (α := α) stM farr za (cpowi (Cx.conj zg) sw) sw ellMax (frdC (α := α) st fv i) := by
+  unfold genRow evaluateHornerK evaluateHorner
+  rw [GenFill.frdC_fwrC_same]
+  congr 1
+  have ec : (((ellMax : Int) + 1) - max ((sw.natAbs : Nat) : Int) 0).toNat = ellMax + 1 - sw.natAbs := by omega
+  rw [ec]
+  refine GenH.loopN_sim (fun (s : φ) (acc : Cx α) => frdC (α := α) s fv i = acc) _ _ _ _ _ ?_ ?_
+  · rw [GenFill.frdC_fwrC_same]; rfl
+  · intro k s acc hk hR
+    simp only []
+    rw [GenFill.frdC_fwrC_same, hR]
+    have ek : max ((sw.natAbs : Nat) : Int) 0 + (k : Int) = ((sw.natAbs + k : Nat) : Int) := by omega
+    rw [ek, genEll_eq_evalEll stM farr mw Hw za sw P ncols i (sw.natAbs + k) hrow (by omega) hsP
+      (fun a h1 h2 => hHw (sw.natAbs + k) a (by omega) (by omega) h1 h2)]
+
+/-- … and no other output cell has moved -/
+theorem genRow_other (mw : Int → Cx α) (fv : Nat) (P : Int) (eM : Int) (sw : Int) (Hw : Int → α)
+    (za zg : Cx α) (ncols : Int) (cpowi : Cx α → Int → Cx α) (i r : Int) (st : φ) (h : r ≠ i) :
+    frdC (α := α) (genRow mw fv Hw za zg sw P 0 eM ncols cpowi i st) fv r = frdC (α := α) st fv r := by
+  unfold genRow
+  simp only []
+  rw [GenFill.frdC_fwrC_other _ _ _ _ _ h]
+  refine (GenFill.loopN_pres (fun s => frdC (α := α) s fv r = frdC (α := α) st fv r) _ _ _ ?_ ?_)
+  · rw [GenFill.frdC_fwrC_other _ _ _ _ _ h]
+  · intro k s _ hT
+    rw [GenFill.frdC_fwrC_other _ _ _ _ _ h]; exact hT
+
+/-- **`_evaluate_Horner` from the Python text, any number of rows of mode weights** (each stored from ℓ = 0), one rotor:
+    the output cell of row `r` holds `Model.evaluateHornerK` of that row's weights — the vectorised call is the per-row call. -/
+theorem evalH_rows (stM : μ) (farrs : Nat → Array (Cx α)) (mw : Int → Cx α) (fv : Nat) (emw eMw P : Int) (ellMax : Nat) (sw : Int)
+    (Hw : Int → α) (za zg : Cx α) (N : Nat) (ncols : Int) (cpowi : Cx α → Int → Cx α) (st : φ) (hsP : (sw.natAbs : Int) ≤ P)
+    (hrows : ∀ (r : Nat) (j : Int), r < N → 0 ≤ j → mw ((r : Int) * ncols + j) = cget (farrs r) j.toNat)
+    (hHw : ∀ (ell : Nat) (a : Int), sw.natAbs ≤ ell → ell ≤ ellMax → -(ell : Int) ≤ a → a ≤ ell →
+        Hw (WignerHindex (ell : Int) a (-sw) (some P)) = Hat (α := α) stM ell a (-sw))
+    (r : Nat) (hr : r < N) :
+    ∃ prev : Cx α, frdC (α := α) (Gen.u_evaluate_Horner (α := α) mw fv emw eMw P 0 (ellMax : Int) sw Hw za zg (N : Int) ncols cpowi st) fv (r : Int)
+      = evaluateHornerK (α := α) stM (farrs r) za (cpowi (Cx.conj zg) sw) sw ellMax prev := by
+  rw [gen_eq_rows]
+  have e1 : (((N : Int)) - 0).toNat = N := by omega
+  rw [e1]
+  refine GenFill.loopN_target (fun s => ∃ prev : Cx α, frdC (α := α) s fv (r : Int)
+      = evaluateHornerK (α := α) stM (farrs r) za (cpowi (Cx.conj zg) sw) sw ellMax prev) N r _ st hr ?_ ?_
+  · intro s
+    simp only [Int.zero_add]
+    exact ⟨_, genRow_value stM (farrs r) mw fv P ellMax sw Hw za zg ncols cpowi (r : Int) s hsP (fun j hj => hrows r j hr hj) hHw⟩
+  · intro k s hk hne ⟨prev, hT⟩
+    simp only [Int.zero_add]
+    exact ⟨prev, by rw [genRow_other _ _ _ _ _ _ _ _ _ _ _ _ _ (by omega)]; exact hT⟩
+
+/-- the one-row form used by `Props/GenHorner` -/
 theorem evalH_row (stM : μ) (farr : Array (Cx α)) (fv : Nat) (emw eMw P : Int) (ellMax : Nat) (sw : Int) (Hw : Int → α)
     (za zg : Cx α) (ncols : Int) (cpowi : Cx α → Int → Cx α) (st : φ) (hsP : (sw.natAbs : Int) ≤ P)
     (hHw : ∀ (ell : Nat) (a : Int), sw.natAbs ≤ ell → ell ≤ ellMax → -(ell : Int) ≤ a → a ≤ ell →
@@ -297,18 +351,6 @@ theorem evalH_row (stM : μ) (farr : Array (Cx α)) (fv : Nat) (emw eMw P : Int)
   have e1 : ((1 : Int) - 0).toNat = 1 := rfl
   rw [e1]
   simp only [loopN, Nat.cast_zero, Int.add_zero]
-  unfold genRow evaluateHornerK evaluateHorner
-  rw [GenFill.frdC_fwrC_same]
-  congr 1
-  have ec : (((ellMax : Int) + 1) - max ((sw.natAbs : Nat) : Int) 0).toNat = ellMax + 1 - sw.natAbs := by omega
-  rw [ec]
-  refine GenH.loopN_sim (fun (s : φ) (acc : Cx α) => frdC (α := α) s fv 0 = acc) _ _ _ _ _ ?_ ?_
-  · rw [GenFill.frdC_fwrC_same]; rfl
-  · intro k s acc hk hR
-    simp only []
-    rw [GenFill.frdC_fwrC_same, hR]
-    have ek : max ((sw.natAbs : Nat) : Int) 0 + (k : Int) = ((sw.natAbs + k : Nat) : Int) := by omega
-    rw [ek, genEll_eq_evalEll stM farr Hw za sw P ncols (sw.natAbs + k) (by omega) hsP
-      (fun a h1 h2 => hHw (sw.natAbs + k) a (by omega) (by omega) h1 h2)]
+  exact genRow_value stM farr _ fv P ellMax sw Hw za zg ncols cpowi 0 st hsP (fun j _ => by simp only [Int.zero_mul, Int.zero_add]) hHw
 end
 end GenHorner
